@@ -1836,8 +1836,26 @@ struct Explorer {
           x.detail = "-n lists {" + l + "} but the real build runs {" + q + "}";
           x.facts.set("restat_pruning_in_real_build", restat_pruned);
           // the manifest itself is out of date: ninja "regenerates" it and, in a dry run, stops there
-          x.facts.set("dry_run_stopped_after_listing_the_manifest_regeneration",
-                      listed_set.size() == 1 && ParseCmd(*listed_set.begin()).id() == "build.ninja" && real.count(*listed_set.begin()) > 0);
+          // (the regeneration's commands: the generator statement and whatever it needs brought up to date first)
+          bool only_regen = false;
+          {
+            auto mp = v->producer.find("build.ninja");
+            if (mp != v->producer.end()) {
+              set<int> up;
+              Upstream(*v, mp->second, &up);
+              up.insert(mp->second);
+              bool has_manifest = false;
+              only_regen = true;
+              for (auto& s : listed_set) {
+                string id = ParseCmd(s).id();
+                auto p = v->producer.find(id);
+                if (id == "build.ninja" && real.count(s)) has_manifest = true;
+                if (p == v->producer.end() || !up.count(p->second)) only_regen = false;
+              }
+              only_regen = only_regen && has_manifest;
+            }
+          }
+          x.facts.set("dry_run_stopped_after_listing_the_manifest_regeneration", only_regen);
           out->push_back(x);
         }
         // order respects dependencies
